@@ -25,3 +25,14 @@ package basic
 //@ ensures[only-if-the-stored-hash-verifies-the-password] result ==>
 //@     (called(CompareHashAndPassword) && ret(CompareHashAndPassword) == nil && bytes(arg(CompareHashAndPassword, 1)) == password)
 //@     || (called(EncodeToString) && bytes(arg(EncodeToString, 1)) == hsum(1, "", password))
+
+// ------------------------------------------------------------------ C20: the htpasswd file is loaded once and reloaded from the same path
+//@ func NewHTPasswdValidator
+//@ prop C20
+//@ at call WatchFileForUpdates assert[watches-the-configured-file] arg(WatchFileForUpdates, 0) == path && ret(loadHTPasswdFile) == nil
+//@ ensures[unloadable-file-is-an-error] ret(loadHTPasswdFile) != nil ==> ret1 != nil && ret0 == nil
+//@ at call loadHTPasswdFile assert[loads-the-configured-file] arg(loadHTPasswdFile, 1) == path
+
+//@ func NewHTPasswdValidator$1
+//@ prop C20
+//@ ensures[an-update-reloads-this-map-from-the-same-path] called(loadHTPasswdFile) && recv(loadHTPasswdFile) == h && arg(loadHTPasswdFile, 1) == path
